@@ -39,7 +39,7 @@ POLICIES = ['target_pch_out_db', 'target_psd_out_mWperGHz', 'target_out_mWperSlo
 
 
 def plan(tier, seed):
-    n = 120 if tier == 'quick' else 16000
+    n = 1200 if tier == 'quick' else 16000
     kinds = ['net', 'net', 'direct', 'direct', 'policy', 'direct']
     return [{'idx': i, 'kind': kinds[i % len(kinds)]} for i in range(n)]
 
